@@ -1,6 +1,7 @@
 /- Shared parsing for the environment-machine drivers (C01 C08 C09 C10). -/
 import ControlModel.Model.Env
 import ControlModel.Model.CallWays
+import ControlModel.Model.TrigExpr
 import ControlModel.Spec.EnvTrace
 
 namespace Driver.EnvCommon
@@ -26,13 +27,24 @@ def parseOutcome : SExp → Option Outcome
     | none => (Way.parse? s).map .fail
   | _ => none
 
+/-- A trigW / awaitW field: an integer, or `(w TEXT)` — the weight AS WRITTEN in the template after the trigger
+    name (`+010`, `-007`, `-0`, nothing at all, …). The hook's weight is what the expression `name ++ TEXT`
+    DECLARES: the documented decimal reading (Model/TrigExpr.lean `parseTriggerExpr`, tied to the code's reader
+    by `C08_trigger_text_is_code`). A text that moves the cut (a second sign inside it) names another trigger:
+    not an input of this format. -/
+def parseWeight (name : String) : SExp → Option Int
+  | .list [.atom "w", .atom t] =>
+    let r := parseTriggerExpr (name.toList ++ t.toList)
+    if r.1 == name.toList then some r.2 else none
+  | x => x.int?
+
 def parseKHook : SExp → Option KHook
   | .list [id, .atom kind, crit, .atom tm, tw, .atom am, aw, .list outs] => do
     let os ← outs.mapM? parseOutcome
     -- a named way is for call hooks
     if kind == "task" && os.any (fun o => o != .ok && o != .fail .callError) then none
     pure { id := ← id.nat?, isTask := kind == "task", critical := ← crit.bool?,
-           trig := ← parseMoment tm, tw := ← tw.int?, await := ← parseMoment am, aw := ← aw.int?,
+           trig := ← parseMoment tm, tw := ← parseWeight tm tw, await := ← parseMoment am, aw := ← parseWeight am aw,
            outcomes := os }
   -- with the call's own `timeout` (ms) and the probe's duration (ms): parsed and dropped — neither has
   -- any effect in the model, as neither has in the core (the result of a call is collected at its await
@@ -56,12 +68,28 @@ def parseReq : SExp → Option Req
 
 def parsePReq : SExp → Option PReq
   | .list [.atom "P", a, b] => do pure (.par (← parseReq a) (← parseReq b))
+  -- (P q1 q2 holdMs): the same pair, the task phase of q1 lasting holdMs more (`parseHold`)
+  | .list [.atom "P", a, b, h] => do let _ ← h.nat?; pure (.par (← parseReq a) (← parseReq b))
   | q => (parseReq q).map .one
+
+/-- how long the first request of a pair is kept in its task phase after the first sighting (ms; 0 = not at all) -/
+def parseHold : SExp → Nat
+  | .list [.atom "P", _, _, h] => (h.nat?).getD 0
+  | _ => 0
+
+/-- a user-supplied workflow variable `(key value)` -/
+def parseUVar : SExp → Option (String × String)
+  | .list [.atom k, .atom v] => some (k, v)
+  | _ => none
 
 structure Input where
   khooks : List KHook        -- as given: the script of a call hook may name the way an execution fails
   preqs : List PReq          -- as given: single requests and overlapping pairs `(P q1 q2)`
   nTasks : Nat
+  holds : List Nat := []     -- per entry of `preqs`: the hold of a pair `(P q1 q2 holdMs)`, 0 otherwise
+  /-- user-supplied workflow variables of the environment. The model takes none into account: no
+      transition of the code consults one (a tree that does shows as a disagreement). -/
+  uvars : List (String × String) := []
 
 /-- The hooks as the environment machine sees them: per execution, whether `(*Call).Call()` returns an
     error — by the exit logic of the code as it is (`codeCall`, tied to the source by
@@ -74,7 +102,10 @@ def Input.reqs (i : Input) : List Req := (i.preqs.map PReq.flat).flatten
 def parseInput (s : String) : Option Input :=
   match SExp.parse s with
   | some (.list [.list hs, .list qs, n]) => do
-    pure { khooks := ← hs.mapM? parseKHook, preqs := ← qs.mapM? parsePReq, nTasks := ← n.nat? }
+    pure { khooks := ← hs.mapM? parseKHook, preqs := ← qs.mapM? parsePReq, nTasks := ← n.nat?, holds := qs.map parseHold }
+  | some (.list [.list hs, .list qs, n, .list vs]) => do
+    pure { khooks := ← hs.mapM? parseKHook, preqs := ← qs.mapM? parsePReq, nTasks := ← n.nat?, holds := qs.map parseHold,
+           uvars := ← vs.mapM? parseUVar }
   | _ => none
 
 def parseTV : SExp → Option TV
@@ -124,6 +155,8 @@ def parseIEv : SExp → Option IEv
     pure (.reqEnd (← parseRes res) st (← rn.nat?) (← parseVars v) ps (← g.bool?))
   | .list [.atom "Q", n] => do pure (.quiesce (← n.nat?))
   | .list [.atom "OV", .atom how, .atom a, .atom b] => some (.overlap how a b)
+  | .list [.atom "OW", .atom first, .atom second, .atom st] => some (.held first second st)
+  | .list [.atom "BO", .atom e, n] => do pure (.bodyOverlap e (← n.nat?))
   | _ => none
 
 def parseTrace (s : String) : Option ITrace :=
@@ -154,7 +187,7 @@ def processWithRaw (spec : Input → ITrace → String → Bool × String) (line
         -- a panic or an unparsable trace is never accepted
         "REJECT:unparsable-trace\t0\t-"
       | some tr =>
-        let verdict := match monitorPar i.hooks i.nTasks i.preqs tr with
+        let verdict := match monitorParH i.hooks i.nTasks i.preqs i.holds tr with
           | none => "ACCEPT"
           | some why => "REJECT:" ++ (why.replace "\t" " ").replace "\n" " "
         let (ok, hyp) := spec i tr impl
